@@ -111,6 +111,13 @@ func (s *S) self() *thread {
 	return t
 }
 
+// ChoicesSoFar returns a copy of the decisions taken so far in this execution.
+func (s *S) ChoicesSoFar() []int {
+	s.mu.Lock()
+	defer s.mu.Unlock()
+	return append([]int{}, s.exec.Choices...)
+}
+
 // Tid returns the calling thread's id, or -1.
 func (s *S) Tid() int {
 	if t := s.self(); t != nil {
